@@ -802,6 +802,7 @@ class EventModel:
 def install(reg):
     reg.plug(GraphPlugin())
     reg.plug(AsyncioPlugin())
-    from . import libmodels2, libmodels3
+    from . import libmodels2, libmodels3, libmodels4
     libmodels2.install(reg)
     libmodels3.install(reg)
+    libmodels4.install(reg)
